@@ -972,10 +972,20 @@ impl FunctionCompiler<'_> {
                     (len, source)
                 };
 
-                let is_good_index =
+                // an index wider than a usize (u128) is compared in its own width: reducing it
+                // first would let `2^64 + k` pass the check as `k`
+                let wide_index_ty = self.builder.func.dfg.value_type(index);
+                let is_good_index = if wide_index_ty.is_int() && wide_index_ty.bits() > self.ptr_ty.bits()
+                {
+                    let wide_len = self.builder.ins().uextend(wide_index_ty, len);
                     self.builder
                         .ins()
-                        .icmp(IntCC::UnsignedLessThan, naive_index, len);
+                        .icmp(IntCC::UnsignedLessThan, index, wide_len)
+                } else {
+                    self.builder
+                        .ins()
+                        .icmp(IntCC::UnsignedLessThan, naive_index, len)
+                };
 
                 self.compile_unreachablez(
                     is_good_index,
